@@ -16,6 +16,7 @@ inductive Fault
   | midBody (declared sent : Nat)         -- Content-Length `declared`, `sent` bytes, close
   | chunkPartial                          -- chunked: one full chunk (5 bytes), part of a second (3 bytes), close
   | upgrade                               -- 101 Switching Protocols, then 17 bytes
+  | early (status bodyLen : Nat)          -- `103 Early Hints`, then a complete response with this status
 deriving DecidableEq, Repr
 
 /-- the error flags `handleProxyError` looks at, in its order -/
@@ -85,6 +86,8 @@ def outcome (s : Setup) (f : Fault) : Outcome :=
     if s.bufResp then { client := .cut none 0, at_ := 0, logStatus := 200, logBytes := some 0, claimed := true }
     else { client := .cut (some 200) 8, at_ := 0, logStatus := 200, logBytes := some 8, claimed := true }
   | .upgrade => { client := .upgraded, at_ := 0, logStatus := 101, logBytes := some 0, claimed := true }
+  -- an informational response is passed on and changes nothing about the final one
+  | .early st n => { client := .response st n, at_ := 0, logStatus := st, logBytes := some n, claimed := true }
 
 /-- the client goes away after `abortAt` while the target has not answered -/
 def outcomeAborted (abortAt : Nat) : Outcome :=
